@@ -12,6 +12,8 @@ package c07
 
 import (
 	"fmt"
+	"os"
+	"path/filepath"
 	"sort"
 	"strings"
 	"testing"
@@ -215,10 +217,171 @@ func classify(tool, desc string) string {
 	return fmt.Sprintf("nondet:%s:%s", tool, name)
 }
 
+// ---------------------------------------------------------------------------
+// neuralbond
+
+// repeatInproc executes f n times and compares every execution with the first one.
+func repeatInproc(tool string, n int, probe bool, f func() map[string]string) (first map[string]string, labels []string, fail *pbt.Failure) {
+	if n < 2 {
+		n = 2
+	}
+	first = f()
+	if !probe {
+		labels = canonicalise(first)
+	}
+	for i := 1; i < n; i++ {
+		again := f()
+		if !probe {
+			canonicalise(again)
+		}
+		if d := diffArte(first, again); d != "" {
+			return first, labels, pbt.Failf(classify(tool, d), "%s: in-process executions 0 and %d of the same input differ: %s", tool, i, d)
+		}
+	}
+	return first, labels, nil
+}
+
+func nbBasmInputs(c NBCase, basmText string) []SrcFile {
+	files := []SrcFile{{"out.basm", basmText}}
+	for _, p := range neuronLibFiles(c.Mode) {
+		b, _ := os.ReadFile(p)
+		files = append(files, SrcFile{filepath.Base(p), string(b)})
+	}
+	return files
+}
+
+func propInprocNB(c NBCase) pbt.Outcome {
+	first, labels, fail := repeatInproc("neuralbond", c.Runs, c.Probe, func() map[string]string { return nbOnce(c) })
+	out := pbt.Outcome{Labels: append(c.labels(), labels...), Fail: fail}
+	if fail != nil {
+		return out
+	}
+	text := first["out.basm"]
+	if text == "" {
+		out.Labels = append(out.Labels, "neuralbond-rejected")
+		return out
+	}
+	out.NonTrivial = c.rich()
+	// second stage: the emitted file through the assembler (with the neuron library), on the canonical text
+	files := nbBasmInputs(c, text)
+	asm, l2, fail := repeatInproc("basm", 3, c.Probe, func() map[string]string { return assembleOnce(files, nbBasmFlags) })
+	out.Labels = append(out.Labels, l2...)
+	out.Fail = fail
+	if asm["bm.json"] != "" {
+		out.Labels = append(out.Labels, "assembled")
+	} else {
+		out.Labels = append(out.Labels, "basm-rejected")
+	}
+	sort.Strings(out.Labels)
+	return out
+}
+
+func propCliNB(c NBCase) pbt.Outcome {
+	libArgs := neuronLibFiles(c.Mode)
+	basmArgs := append(append([]string{}, nbBasmFlags...), "-bminfo-file", "bminfo.json", "-o", "bm.json", "-bo", "out.bcof", "out.basm")
+	basmArgs = append(basmArgs, libArgs...)
+	if c.Probe {
+		// the pipeline as a user runs it, nothing canonicalised
+		out, _ := cliVerdict("neuralbond", c.nbFiles(), append(c.nbSteps(), Step{Tool: "basm", Args: basmArgs}), c.Runs, true)
+		out.Labels = append(out.Labels, c.labels()...)
+		return out
+	}
+	out, arte := cliVerdict("neuralbond", c.nbFiles(), c.nbSteps(), c.Runs, false)
+	out.Labels = append(out.Labels, c.labels()...)
+	if out.Excluded != "" || out.Fail != nil {
+		return out
+	}
+	text := arte["file:out.basm"]
+	if text == "" {
+		out.Labels = append(out.Labels, "neuralbond-rejected")
+		return out
+	}
+	out.NonTrivial = c.rich()
+	files := []SrcFile{{"out.basm", text}, {"bminfo.json", arte["file:bminfo.json"]}}
+	o2, a2 := cliVerdict("basm", files, []Step{{Tool: "basm", Args: basmArgs}}, c.Runs, false)
+	if o2.Excluded != "" {
+		return o2
+	}
+	out.Labels = append(out.Labels, o2.Labels...)
+	out.Fail = o2.Fail
+	if a2["file:bm.json"] != "" {
+		out.Labels = append(out.Labels, "assembled")
+	} else {
+		out.Labels = append(out.Labels, "basm-rejected")
+	}
+	sort.Strings(out.Labels)
+	return out
+}
+
+const nbRule = "layered nets in the format of cmd/neuralbond/net-*.json: 1..4 inputs, 1..2 hidden layers of 1..3 neurons (linear/summation/softmax), randomly pruned connections (>= 1 per neuron), one output terminal per last-layer neuron, weights and biases in [-2,2]; modes romcode|fragment, io sync|async, float32/32 or float16/16, fragment mode with random (weight,node) collapse groups in the config file; the emitted .basm then goes through basm with the neuron library and the chooser flags; oracle: byte equality of the emitted .basm, rewritten config and bminfo, then of machine JSON/BCOF/bminfo; non-trivial = neuralbond emitted a file, some layer has >= 2 neurons and there are >= 2 weights (the assembler's verdict on the emitted file is a label: assembled / basm-rejected)"
+
+// ---------------------------------------------------------------------------
+// bmqsim -> basm
+
+func propInprocQ(c QCase) pbt.Outcome {
+	first, labels, fail := repeatInproc("bmqsim", c.Runs, c.Probe, func() map[string]string { return qOnce(c) })
+	out := pbt.Outcome{Labels: append(c.labels(), labels...), Fail: fail}
+	if fail != nil {
+		return out
+	}
+	text := first["q.basm"]
+	if text == "" {
+		out.Labels = append(out.Labels, "bmqsim-rejected")
+		return out
+	}
+	out.NonTrivial = c.rich()
+	files := []SrcFile{{"q.basm", text}}
+	asm, l2, fail := repeatInproc("basm", 3, c.Probe, func() map[string]string { return assembleOnce(files, qBasmFlags) })
+	out.Labels = append(out.Labels, l2...)
+	out.Fail = fail
+	if asm["bm.json"] != "" {
+		out.Labels = append(out.Labels, "assembled")
+	} else {
+		out.Labels = append(out.Labels, "basm-rejected")
+	}
+	sort.Strings(out.Labels)
+	return out
+}
+
+func propCliQ(c QCase) pbt.Outcome {
+	files := []SrcFile{{"program.bmq", c.program()}}
+	basmStep := Step{Tool: "basm", Args: append(append([]string{}, qBasmFlags...), "-bminfo-file", "bminfo.json", "-o", "bm.json", "-bo", "out.bcof", "q.basm")}
+	out, arte := cliVerdict("bmqsim", files, c.qSteps(), c.Runs, c.Probe)
+	out.Labels = append(out.Labels, c.labels()...)
+	if out.Excluded != "" || out.Fail != nil {
+		return out
+	}
+	text := arte["file:q.basm"]
+	if text == "" {
+		out.Labels = append(out.Labels, "bmqsim-rejected")
+		return out
+	}
+	out.NonTrivial = c.rich()
+	o2, a2 := cliVerdict("basm", []SrcFile{{"q.basm", text}, {"bminfo.json", "{}"}}, []Step{basmStep}, c.Runs, c.Probe)
+	if o2.Excluded != "" {
+		return o2
+	}
+	out.Labels = append(out.Labels, o2.Labels...)
+	out.Fail = o2.Fail
+	if a2["file:bm.json"] != "" {
+		out.Labels = append(out.Labels, "assembled")
+	} else {
+		out.Labels = append(out.Labels, "basm-rejected")
+	}
+	sort.Strings(out.Labels)
+	return out
+}
+
+const qRule = "circuits in the .bmq format of cmd/bmqsim/program.bmq: 1..3 qubits, optional `zero` line, 1..5 gates (h x z; for the complex flavours also y s t v rx ry rz r with an angle; cx cz swap on >= 2 qubits), flavours seq_hardcoded_real|complex|addtree_complex with -save-basm, -emit-bmapi-maps, optional -build-app flavour and the -build-matrix-seq-hls bundle; the emitted .basm then goes through `basm -chooser-min-word-size`; oracle: byte equality of every emitted file, then of machine JSON/BCOF; non-trivial = a .basm was emitted and the circuit has >= 2 qubits or >= 2 gates (>= 4 matrix-element data sections and >= 2 row CPs either way)"
+
 const basmRule = "BASM sources synthesised from a grammar (1..5 code sections with labels, entry, rset/inc/add/mult/cpy/mov/jz/j bodies, rom/ram accesses, 0..3 data sections, 0..3 macros, 1..5 CPs sharing sections, an IO network; and/or 1..4 fragments (plain and templated), 1..6 instances in a DAG, links, CPs with fragcollapse lists), literals in every bmnumbers notation over-sampled at 10/100, optional second input file, chooser/pass/optimization flags; oracle: byte equality of machine JSON, BCOF, requirement dump, bminfo (and, CLI tier, stdout/stderr/exit status) between executions; non-trivial = a machine was produced and at least two of the collections {sections, fragments, macros, cpdefs, iodefs, fidefs, filinkdefs} have >= 2 entries"
 
 var Props = []*pbt.Entry{
 	pbt.Def("inproc_basm", basmRule+"; 5 executions on fresh BasmInstances in one process (registries reset between them)", genBasmCase(func() int { return inprocRuns }), propInprocBasm),
+	pbt.Def("inproc_neuralbond", nbRule+"; 5 in-process executions of the neuralbond sequence, 3 of the assembler", genNBCase(func() int { return inprocRuns }), propInprocNB),
+	pbt.Def("cli_neuralbond", nbRule+"; N fresh processes per stage (quick 6, thorough 30), GOMAXPROCS in {1,2,16}", genNBCase(tierRuns), propCliNB),
+	pbt.Def("inproc_bmqsim", qRule+"; 5 in-process executions of the bmqsim sequence, 3 of the assembler", genQCase(func() int { return inprocRuns }), propInprocQ),
+	pbt.Def("cli_bmqsim", qRule+"; N fresh processes per stage (quick 6, thorough 30), GOMAXPROCS in {1,2,16}", genQCase(tierRuns), propCliQ),
 	pbt.Def("cli_basm", basmRule+"; N fresh processes (quick 6, thorough 30), GOMAXPROCS in {1,2,16}; a second outcome of per-run probability p is missed with (1-p)^(N-1)", genBasmCase(tierRuns), propCliBasm),
 }
 
